@@ -19,9 +19,11 @@ REPO = os.environ.get('VERIF_REPO', '/repo')
 
 # unit -> function -> list of replays
 REGISTRY = {
-    'cont': {'*': [dict(kind='egg', file='replays/cont/nested_containers.egg'), dict(kind='egg', file='replays/cont/nested_containers.egg', args=('--naive',))]},
+    'cont': {'*': [dict(kind='egg', file='replays/cont/nested_containers.egg'), dict(kind='egg', file='replays/cont/nested_containers.egg', args=('--naive',)),
+                   dict(kind='egg', file='replays/cont/incremental_container_rebuild.egg')]},
     'sched': {'*': [dict(kind='egg', file='replays/sched/schedules.egg')]},
     'merge': {'*': [dict(kind='egg', file='replays/merge/merge_and_subsume.egg'),
+                    dict(kind='egg', file='replays/merge/parallel_in_batch_merge.egg', args=('-j', '4'), env={'EGGLOG_PARALLEL_TABLE_OP_CUTOFF': '0'}),
                     dict(kind='egg', file='replays/merge/extract_skips_subsumed.egg', forbid_out='(Mul (Var "a") (Num 2))', require_out='(Shl (Var "a") (Num 1))')]},
     'semi': {'*': [dict(kind='egg', file='replays/semi/seminaive.egg'), dict(kind='egg', file='replays/semi/seminaive.egg', args=('--naive',))]},
     'uf': {'*': [dict(kind='harness', name='uf_partition')]},
@@ -47,8 +49,10 @@ def build_egglog(timeout):
     return os.path.join(REPO, 'target', 'debug', 'egglog'), f'built in {time.time() - t0:.0f}s'
 
 
-def run_egg(binary, path, timeout=60, args=(), forbid_out=None, require_out=None):
-    p = subprocess.run([binary, *args, path], capture_output=True, text=True, timeout=timeout, env=_env())
+def run_egg(binary, path, timeout=60, args=(), forbid_out=None, require_out=None, env=None):
+    e2 = _env()
+    e2.update(env or {})
+    p = subprocess.run([binary, *args, path], capture_output=True, text=True, timeout=timeout, env=e2)
     rc = p.returncode
     if rc == 0 and forbid_out and forbid_out in p.stdout:
         return 1, f'forbidden output `{forbid_out}` printed:\n' + p.stdout[-1200:]
@@ -93,7 +97,7 @@ def search(unit, fn, tier):
                     if binary is None:
                         continue
                 path = os.path.join(VERIF, e['file'])
-                rc, out = run_egg(binary, path, args=e.get('args', ()), forbid_out=e.get('forbid_out'), require_out=e.get('require_out'))
+                rc, out = run_egg(binary, path, args=e.get('args', ()), forbid_out=e.get('forbid_out'), require_out=e.get('require_out'), env=e.get('env'))
                 if rc != 0:
                     return dict(found=True, kind='egg', input=open(path).read(), file=path, args=list(e.get('args', ())),
                                 observed=out, note='; '.join(notes),
@@ -150,9 +154,9 @@ def run_all(units, tier='thorough'):
                                 out.append(dict(unit=u, what=e['file'], passed=None, observed=note, how=''))
                                 continue
                         path = os.path.join(VERIF, e['file'])
-                        rc, o = run_egg(binary, path, timeout=600, args=e.get('args', ()), forbid_out=e.get('forbid_out'), require_out=e.get('require_out'))
+                        rc, o = run_egg(binary, path, timeout=600, args=e.get('args', ()), forbid_out=e.get('forbid_out'), require_out=e.get('require_out'), env=e.get('env'))
                         out.append(dict(unit=u, what=e['file'] + ' ' + ' '.join(e.get('args', ())), passed=(rc == 0), observed=o[-800:], kind='egg', file=path, args=list(e.get('args', ())),
-                                        how=f'cd {REPO} && cargo build --offline --bin egglog && target/debug/egglog {" ".join(e.get("args", ()))} {path}'))
+                                        how=f'cd {REPO} && cargo build --offline --bin egglog && {" ".join(k + "=" + v for k, v in (e.get("env") or {}).items())} target/debug/egglog {" ".join(e.get("args", ()))} {path}'))
                     elif e['kind'] == 'harness':
                         rc, o = run_harness(e['name'], 3600)
                         out.append(dict(unit=u, what='harness ' + e['name'], passed=(rc == 0) if rc in (0, 1) else None, observed=o[-800:], kind='harness', name=e['name'],
